@@ -273,6 +273,11 @@ def r15_4(prog, rep):
                                          show(idx), v_, -c_))
                         elif ok:
                             rep.ok(rid, key, f.loc(nn.get("line", line)), "index %s within [0, %s) on every path" % (show(idx), nm))
+                        elif c_ < 0:
+                            rep.fail(rid, key, f.loc(nn.get("line", line)),
+                                     "the scan index %s is used (table read at [%s]) without `%s < %s` on every path: an exhausted scan means the day lies on or "
+                                     "behind the last transition, in a month whose end the table does not know; it is converted instead of rejected" % (
+                                         v_, show(idx), v_, nm))
                         else:
                             rep.fail(rid, key, f.loc(nn.get("line", line)),
                                      "the month-transition table is read at [%s] without `%s < %s` on every path: dates just outside the table's coverage are "
